@@ -74,14 +74,40 @@ func verifRtDsts(model, fam string) []string {
 	if fam == "v6" {
 		return []string{"10::3:0/112"}
 	}
-	return []string{"10.20.0.0 255.255.0.0", "0.0.0.0 0.0.0.0"}
+	// the /16 and the /24 share their network address
+	return []string{"10.20.0.0 255.255.0.0", "10.20.0.0 255.255.255.0", "0.0.0.0 0.0.0.0"}
 }
+
+// probe addresses (IPv4): outside, in the /16 only, in the /24;
+// verifRtCovers[p] lists the destinations (indices) that contain probe p
+var verifRtCovers = [][]int{{2}, {2, 0}, {2, 0, 1}}
+
+var verifRtIOS = false
 
 func verifRtHops(fam string) []string {
 	if fam == "v6" {
 		return []string{"10::2:2", "10::2:3"}
 	}
+	if verifRtIOS {
+		return []string{"10.1.2.3", "10.1.2.4"}
+	}
 	return []string{"10.1.2.3", "10.1.2.4", "10.1.2.5"}
+}
+
+// covered: some active IPv4 route of the VRF contains probe address p
+func (t *verifRtTable) covered(vrf string, p int) bool {
+	dsts := verifRtDsts(t.model, "v4")
+	for _, r := range t.routes {
+		if r.fam != "v4" || r.vrf != vrf {
+			continue
+		}
+		for _, d := range verifRtCovers[p] {
+			if r.dst == dsts[d] {
+				return true
+			}
+		}
+	}
+	return false
 }
 
 func (t *verifRtTable) hasDst(fam, vrf, dst string) bool {
@@ -153,7 +179,8 @@ func verifPickRoutes(t string, model string, n int, allowVRF bool) []verifRt {
 func VerifRoutes(api VerifRouteAPI) {
 	N, _ := strconv.Atoi(vf.Param("N", "2"))
 	model := api.Model
-	vf.Assumption(model + " routes: device and target each hold 0..N static routes over 2 IPv4 destinations x 3 next hops (IOS: global table or VRF v1, several routes per destination allowed; ASA: one route per destination, one IPv6 destination x 2 hops); routing table model: 'no' needs the route, an identical route cannot be added twice, an ASA refuses a second route to a destination")
+	verifRtIOS = model == "IOS"
+	vf.Assumption(model + " routes: device and target each hold 0..N static routes over 3 IPv4 destinations (a /16, a /24 with the same network address inside it, default) x 3 next hops (IOS: 2 next hops, global table or VRF v1, several routes per destination allowed; ASA: one route per destination, one IPv6 destination x 2 hops); routing table model: 'no' needs the route, an identical route cannot be added twice, an ASA refuses a second route to a destination")
 	n := vf.Int("n", 0, N)
 	m := vf.Int("m", 0, N)
 	A := verifPickRoutes("a", model, n, model == "IOS")
@@ -216,6 +243,14 @@ func VerifRoutes(api VerifRouteAPI) {
 					if before.hasDst(fam, vrf, d) && after.hasDst(fam, vrf, d) {
 						vf.Assert(tbl.hasDst(fam, vrf, d), "C14: "+model+": a destination that has a route before and after the change has none at an intermediate step")
 					}
+				}
+			}
+		}
+		// the same for addresses: routed (by any containing route) before and after
+		for _, vrf := range []string{"", "v1"} {
+			for p := range verifRtCovers {
+				if before.covered(vrf, p) && after.covered(vrf, p) {
+					vf.Assert(tbl.covered(vrf, p), "C14: "+model+": an address that is routed before and after the change is unrouted at an intermediate step")
 				}
 			}
 		}
